@@ -134,6 +134,17 @@ CLAIMED = {
         note=COMMON_NOTE + "The request/response machinery underneath (registration before the write, handler removal in every ending) is C11's; connection loss during a Bluetooth operation is C09/C11's. Iteration order of handlers of one message type (a Python set) is abstracted: observations are compared per operation. Fixed defect: cancelled start_notify left its data callback registered (repo commit dd00f32).",
         tech="machine-checked proof in Coq (case analysis of the operation machines, non-interference by induction over event sequences) + model/implementation correspondence on concurrent stories under a virtual clock",
         ref="DESIGN.md §5 C16"),
+    "C17": dict(
+        text="Coq theorems about Model/Subs.v (on_state_msg with the per-subscription camera buffer, the subscribe_* wrappers and their unsubscribe closures, subscribe_voice_assistant with its start task): "
+             "C17_state_message_one_callback / C17_one_callback_per_state_message (for every message list: exactly one callback per state message, its type and values, in order), "
+             "C17_camera_reassembly_per_key / C17_camera_reassembly_fresh (for EVERY interleaving of chunk streams of any number of keys with any other messages, the images completed for a key are the concatenations of that key's chunks since its previous completion, by induction with the buffer invariant), "
+             "C17_other_subscriptions_one_call (logs, service calls, home-assistant states incl. the once/request split, advertisements, raw advertisements, connections-free, voice-assistant stop/audio/announce), "
+             "C17_va_start_calls_handler / C17_va_start_answered / C17_va_answered_at_most_once / C17_va_unsub_cancels_latest / C17_va_invariant_all_runs (a start is answered with the port its handler returned or an error response, once; overlapping starts each get their answer; the start in flight is cancelled by unsubscribe and never answered), "
+             "C17_unsubscribe_is_immediate / C17_no_callback_after_unsubscribe (no handler call after the unsubscribe function returned, for every later event sequence), C17_other_id_ignored. "
+             "Tied by stories on the real APIClient over SimNet: 1-7 subscriptions side by side, all 21 state types with every scalar field set (class and field values of every callback checked against the message), interleaved camera streams over up to 4 keys (empty and single-chunk images included), voice-assistant requests whose handlers return / fail at once or later or are cancelled, unsubscribe calls at every point; per step handler calls and frames written must equal the extracted model's and the property predicate is computed from the story alone.",
+        note=COMMON_NOTE + "The message -> model object conversion is C14's (here the callback's class and field values are compared with the message), dispatch is C12's. Order of handler calls between different subscriptions of one message type (a Python set) is abstracted: calls are compared per subscription. The flag value sent for API audio is model.py's (4; api.proto's enum says 1 - outside C17, recorded in DESIGN.md).",
+        tech="machine-checked proof in Coq (induction over message lists with the camera-buffer invariant; case analysis of the subscription machines) + model/implementation correspondence on subscription stories",
+        ref="DESIGN.md §5 C17"),
     "C18": dict(
         text="Coq theorems about Model/Reconnect.v (labelled transition system of reconnect_logic.py over a client with adversarial attempt outcomes, inductive invariant preserved by all 8 label kinds): C18_one_attempt_at_a_time (for every history at most one client connect call in flight, exactly while CONNECTING/HANDSHAKING), "
              "C18_backoff_spec / C18_backoff_capped (wait after the n-th failure = min(round(1.8^n), 60) s for EVERY n >= 1, the exponent cap is invisible; 60 s after auth errors), C18_failure_schedules_backoff, C18_unexpected_end_retries_at_once, C18_expected_end_cools_down (exactly 5 s), C18_timer_exact, C18_time_respects_timer, "
